@@ -210,6 +210,11 @@ class WritableVersion(dns.zone.WritableVersion):
         if not replacement:
             assert isinstance(zone, dns.versioned.Zone)
             version = zone._versions[-1]
+            if not isinstance(version, ImmutableVersion):
+                # This is the empty version every versioned zone starts with;
+                # there is nothing to copy.
+                replacement = True
+        if not replacement:
             self.nodes: dns.btree.BTreeDict[dns.name.Name, Node] = dns.btree.BTreeDict[
                 dns.name.Name, Node
             ](
